@@ -310,6 +310,18 @@ def run(ctx):
         # make sure string defaults with quotes / backslashes / newlines occur
         ir = case.ir
         case.sdl = S.to_sdl(ir)[0]
+        if ci % 2 == 1:
+            # an application-wide default resolver that only knows the application's own objects
+            from py_gql.execution.default_resolver import default_resolver as library_default
+            from ..gen.world import LazyDict, LazyObject
+
+            def application_default(root, context, info, **args):
+                if isinstance(root, (LazyDict, LazyObject, dict)) or root is None:
+                    return library_default(root, context, info, **args)
+                raise TypeError("the application's default resolver was handed a %s" % type(root).__name__)
+
+            case.schema.default_resolver = application_default
+            ctx.count("schemas_with_application_default_resolver")
         interesting = any(a.has_default for t in ir.types.values() for f in t.fields for a in f.args) or \
             any(f.deprecation for t in ir.types.values() for f in t.fields) or any(t.kind in ("interface", "union") for t in ir.types.values())
         root = case.binding.root_value(ir.query)
@@ -386,6 +398,40 @@ def run(ctx):
             if ordinary in text.split("__type")[0] and ordinary != "__typename" and isinstance(res.data, dict):
                 if baseline is not None and data.get(ordinary) != baseline:
                     ctx.violation("disabled:ordinary-field-disturbed", witness, "%r vs %r" % (data.get(ordinary), baseline))
+        # history: the schema object that has just answered all of the above is modified in place (a
+        # member of an abstract type is hidden) and must then report exactly what it has become
+        members = sorted(set(m for t in ir.types.values() if t.kind in ("interface", "union")
+                             for m in ir.possible_types(t.name)) - set(n for _k, n in ir.roots()))
+        if members:
+            from py_gql.schema.transforms import VisibilitySchemaTransform
+            from .c14 import apply_visibility
+
+            gone = rng.choice(members)
+
+            class Hide(VisibilitySchemaTransform):
+                def is_type_visible(self, name):
+                    return name != gone
+
+            witness = {"schema_sdl": case.sdl, "hidden_in_place": gone, "query": "introspection_query()"}
+            ctx.evaluated()
+            try:
+                Hide().on_schema(case.schema)
+                case.schema.validate()
+            except Exception as e:
+                ctx.count("in_place_change_refused:%s" % type(e).__name__)
+            else:
+                ctx.count("in_place_changes")
+                ir2 = apply_visibility(ir, {gone}, set(), set(), set())
+                try:
+                    res = issue("blocking", case.schema, introspection_query(), root)
+                except Exception as e:
+                    ctx.violation("after-in-place-change:introspection-raises:%s" % type(e).__name__, witness, repr(e)[:300])
+                else:
+                    if res.errors or not isinstance(res.data, dict):
+                        ctx.violation("after-in-place-change:introspection-errors", witness, repr([str(e) for e in res.errors])[:300])
+                    else:
+                        n0 = len(ctx.violations)
+                        check_schema_answer(ctx, ir2, res.data, witness)
         ctx.sample("schema", {"sdl": case.sdl[:400]})
     ctx.require("types_compared", 100)
     ctx.require("defaults_checked", 50)
